@@ -454,10 +454,19 @@ def main(argv=None):
     ctx = Ctx(pid, a.tier, a.seed)
     if a.replay:
         data = json.loads(Path(a.replay).read_text())
-        return mod.replay(ctx, data.get("data", data))
+        data = data.get("data", data)
+        if isinstance(data, dict) and data.get("kind") == "method-form":
+            from harness import factory_common
+
+            return factory_common.replay(ctx, data)
+        return mod.replay(ctx, data)
     try:
         ctx.ensure_static()
         mod.run(ctx)
+        # method forms (t.op(...)) of the operations this property speaks about: wiring theorem + differential battery
+        from harness import factory_common
+
+        factory_common.run(ctx)
     except Exception as ex:  # machinery failure is reported, never silently passed
         import traceback
 
